@@ -4,6 +4,7 @@
 package jsonpath
 
 import (
+	"bytes"
 	"encoding/json"
 	"fmt"
 
@@ -55,7 +56,7 @@ func Get(obj map[string]interface{}, expression string) ([]interface{}, error) {
 
 		// parse json back into a Go primitive
 		var value interface{}
-		err = yaml.Unmarshal(jsonBytes, &value)
+		err = yaml.Unmarshal(escapeNextLine(jsonBytes), &value)
 		if err != nil {
 			return nil, fmt.Errorf("failed to unmarshal jsonpath result: %w", err)
 		}
@@ -140,12 +141,21 @@ func Set(obj map[string]interface{}, expression string, value interface{}) (int,
 	klog.V(7).Infof("jsonpath.Set output as json:\n%s", jsonBytes)
 
 	// parse json back into the input map
-	err = yaml.Unmarshal(jsonBytes, &obj)
+	err = yaml.Unmarshal(escapeNextLine(jsonBytes), &obj)
 	if err != nil {
 		return 0, fmt.Errorf("failed to unmarshal jsonpath result: %w", err)
 	}
 
 	return len(nodes), nil
+}
+
+// escapeNextLine replaces the NEXT LINE character (U+0085) with its JSON/YAML
+// escape sequence. encoding/json writes this character verbatim, but YAML
+// treats it as a line break, which is folded into a space when it occurs
+// inside a quoted string. In JSON text it can only occur inside a string, so
+// replacing it with the escape sequence preserves the value.
+func escapeNextLine(jsonBytes []byte) []byte {
+	return bytes.ReplaceAll(jsonBytes, []byte("\u0085"), []byte(`\u0085`))
 }
 
 func toArrayOfNodes(obj []interface{}) ([]*ajson.Node, error) {
